@@ -266,6 +266,61 @@ func c17Check(c c17Case, goroutines int, report func(key, what, got, want string
 			report("panic:"+rc.Fn, "a read-only operation panicked", seq[i], "no panic")
 		}
 	}
+	// 1b. held query results: the slices the queries return belong to the caller.  On a Map shaped as the JSON decoder
+	// shapes it (lists with spare capacity) every result is kept, all queries are run, and only then is each kept
+	// result compared with the text it had when it was returned: a query that hands out (or appends into) storage of
+	// the receiver lets a LATER query rewrite an EARLIER result although the receiver stays deeply equal.
+	if c.Kind == "map" {
+		if jb, err := mxj.Map(c.Map).Json(); err == nil {
+			if jm, err := mxj.NewMapJson(jb); err == nil {
+				jbefore := canon(map[string]interface{}(jm))
+				type kept struct {
+					fn, arg string
+					live    []interface{}
+					text    string
+				}
+				var all []kept
+				paths := []string{"*", "*.*", "*.*.*"}
+				for _, rc := range c.Calls {
+					paths = append(paths, rc.Path)
+					if ks := strings.Split(rc.Path, "."); len(ks) > 1 {
+						paths = append(paths, strings.Join(ks[:len(ks)-1], ".")+".*", strings.Join(ks[:len(ks)-1], "."))
+					}
+				}
+				for round := 0; round < 2; round++ {
+					for _, pth := range paths {
+						o := protect(func() Outcome {
+							v, err := jm.ValuesForPath(pth)
+							return Outcome{Ret: v, Err: err}
+						})
+						if v, ok := o.Ret.([]interface{}); ok && !o.Panicked && o.Err == nil && len(v) > 0 {
+							all = append(all, kept{"ValuesForPath", pth, v, canonList(v)})
+						}
+					}
+					for _, rc := range c.Calls {
+						o := protect(func() Outcome {
+							v, err := jm.ValuesForKey(rc.Key)
+							return Outcome{Ret: v, Err: err}
+						})
+						if v, ok := o.Ret.([]interface{}); ok && !o.Panicked && o.Err == nil && len(v) > 0 {
+							all = append(all, kept{"ValuesForKey", rc.Key, v, canonList(v)})
+						}
+					}
+				}
+				evals += len(all)
+				for _, k := range all {
+					if now := canonList(k.live); now != k.text {
+						report("held-result-overwritten:"+k.fn, fmt.Sprintf("the slice %s(%q) returned changed after later queries on the same Map", k.fn, k.arg), now, k.text)
+						return
+					}
+				}
+				if after := canon(map[string]interface{}(jm)); after != jbefore {
+					report("receiver-modified:queries", "read-only queries modified their (JSON-decoded) receiver", after, jbefore)
+					return
+				}
+			}
+		}
+	}
 	// 2. Copy shares no mutable structure
 	if c.Kind == "map" {
 		cp, err := mxj.Map(c.Map).Copy()
@@ -307,6 +362,15 @@ func c17Check(c c17Case, goroutines int, report func(key, what, got, want string
 		report("receiver-modified-concurrently", "the shared Map changed under concurrent read-only use", after, before)
 	}
 	return
+}
+
+// canonList: the members of a result slice, in order.
+func canonList(v []interface{}) string {
+	xs := make([]string, len(v))
+	for i, e := range v {
+		xs[i] = canon(e)
+	}
+	return strings.Join(xs, "|")
 }
 
 func init() {
